@@ -417,8 +417,10 @@ def do_check(prop, tier, seed, repo, replay=None):
         'distinct_nontrivial': int(distinct),
         'rule': prop['rule'] + (' [distinct count is a lower bound: signature set capped]' if capped else ''),
         'samples': samples if samples else ['(no sample recorded)'],
-        'exhaustive': bool(prop.get('exhaustive_claim')) and bool(exhaustive_flags) and all(
-            f for f in exhaustive_flags) and not problems,
+        'exhaustive': bool(prop.get('exhaustive_claim')) and not problems and not new_viol and (
+            (lambda rs: bool(rs) and all(r.get('exhaustive') for r in rs))(
+                [r for r in all_results.get(prop.get('exhaustive_stage', ''), []) if r.get('proc') is not None])
+            if prop.get('exhaustive_stage') else (bool(exhaustive_flags) and all(exhaustive_flags))),
         'stages': stage_info,
         'counters': stats,
         'sanitizer_reports': sum(1 for v in violations if v['key'].startswith('crash-')),
